@@ -2,7 +2,7 @@
 import json
 from fractions import Fraction
 import vf, drv, gen, lu, cert, presetsim
-from checks import c01, c07
+from checks import c01, c05, c07
 
 MANIFEST = {
     "text": "Coq theorems (Properties_C16.v, closed under the global context): with threshold 0 and no pivot reuse the pivot rule "
@@ -140,6 +140,58 @@ def fill_tie(sdrv, c, r):
     return None, None
 
 
+def hubblock_entries(rng, Q, NB, hub):
+    ent = {}
+    for b in range(NB):
+        for j in range(Q):
+            for i in range(Q):
+                if i != j and (not hub[b * Q + j] or hub[b * Q + i]):
+                    ent[(b * Q + i, b * Q + j)] = rng.uniform(-0.5, 0.5)
+    n = Q * NB
+    rs = [0.0] * n; cs = [0.0] * n
+    for (i, j), v in ent.items():
+        rs[i] += abs(v); cs[j] += abs(v)
+    for i in range(n):
+        ent[(i, i)] = 1.0 + max(rs[i], cs[i])
+    return ent
+
+
+def hubblock_cases(rng, exe, prec, count):
+    """structurally UNSYMMETRIC blocks whose A^T + A is a clique: NH 'hub' unknowns per block have a full row while their column
+    reaches only the other hubs; the hubs are the unknowns minimum degree on A^T + A numbers first in the block (found by a first
+    pass through sp_colorder: the ordering sees only the clique), relax = NH.  Then the first relaxed supernode of a block has few
+    rows in A (hub columns are short) although the Cholesky counts of A^T + A are those of a dense block: the storage ?PresetMap
+    sets aside for the columns that join it must follow the PREDICTION, not the rows present in A"""
+    ncomp = 2 if prec in "cz" else 1
+    rnd = c01.f32 if prec in "sc" else (lambda v: v)
+    out = []
+    for k in range(count):
+        Q = rng.randint(7, 12); NB = rng.randint(2, 3); NH = rng.randint(3, 5); n = Q * NB
+        A0 = gen.from_entries(n, hubblock_entries(rng, Q, NB, [0] * n), "hubblock")
+        pre = drv.run_batch(exe, [dict(id=300000 + k, prec=prec, driver="colorder", stype="NC", m=n, n=n, colptr=A0["colptr"], rowind=A0["rowind"],
+                                       vals=[1.0] * (len(A0["vals"]) * ncomp), nrhs=0, rhs=[], nprocs=1, colperm=2, symmetric=1,
+                                       ienv=[4, NH, 200, 200, 100, -50, -50, -30], trace=4, dumplu=0, timeout=60)])[0]
+        pc = pre.get("perm_c")
+        if not pc or sorted(pc) != list(range(n)):
+            continue
+        hub = [0] * n
+        last = max(range(NB), key=lambda b: max(pc[b * Q + t] for t in range(Q)))
+        for b in range(NB):
+            if b == last:
+                continue            # the block numbered last stays an ordinary dense block
+            for i in sorted(range(b * Q, (b + 1) * Q), key=lambda i: pc[i])[:NH]:
+                hub[i] = 1
+        A = gen.from_entries(n, hubblock_entries(rng, Q, NB, hub), "hubblock")
+        vals = []
+        for v in A["vals"]:
+            vals += [rnd(v), rnd(v * rng.uniform(-0.2, 0.2))] if ncomp == 2 else [rnd(v)]
+        rhs = [rnd(gen.val(rng)) for _ in range(n * ncomp)]
+        out.append(dict(id=200000 + k, prec=prec, driver="gssvx", stype="NC", m=n, n=n, colptr=A["colptr"], rowind=A["rowind"], vals=vals,
+                        nrhs=1, rhs=rhs, nprocs=rng.choice([1, 2, 4]), colperm=2, symmetric=1, thresh=0.0, fact=0, trans=0,
+                        ienv=[rng.choice([1, 4, 8]), NH, 200, 200, 100, -50, -50, -30], trace=4, perturb=None, dumplu=1, timeout=120, kind="hubblock"))
+    return out
+
+
 def stale_usepr_case(rng, c, r):
     """second factorization of the same matrix with the same column permutation, usepr = YES and a perm_r[] that is stale for two
     columns k < k2 (their rows exchanged): every column before k finds its own diagonal row requested (kept), column k finds a
@@ -170,10 +222,12 @@ def run(ctx):
     ctx.coq_properties()
     N = {"d": 60, "s": 16, "z": 16, "c": 12} if ctx.quick() else {"d": 800, "s": 200, "z": 200, "c": 200}
     sdrv = ctx.ocaml_model("symfill")
-    nok = 0; ntie = 0; ntie1 = 0; nstale = 0
+    nok = 0; ntie = 0; ntie1 = 0; nstale = 0; nmap = 0
+    adrv = ctx.ocaml_model("alloc")
     for prec in "dszc":
         cases = [make_case(rng, k + 1, prec, ctx.quick()) for k in range(N[prec])]
         exe = drv.build(ctx, prec, "hooks")
+        cases += hubblock_cases(rng, exe, prec, (6 if prec == "d" else 2) if ctx.quick() else 30)
         res = drv.run_grouped(exe, cases, par=max(1, vf.NCPU // 2), chunk=1)    # one process per case: an overrun must not taint the next case
         for c, r in zip(cases, res):
             ctx.count((prec, c["kind"], c["n"], tuple(c["rowind"][:40]), tuple(c["vals"][:6]), c["nprocs"]), nontrivial=c["n"] >= 3,
@@ -196,6 +250,23 @@ def run(ctx):
                     key = {"kind": "symmetric", "class": "presetmap_relaxed_out_of_sync"}
                 ctx.violation("C16 (%s, %s): %s" % (prec, c["kind"], bad),
                               {"case": c, "result": {k: v for k, v in r.items() if k not in ("L", "U", "events")}}, key=key)
+        # the storage image ?PresetMap laid out from the SYMMETRIC prediction = the extracted Gallina model of ?PresetMap (C05's model)
+        # on the etree / column counts / partition this run computed
+        lines, idx = [], []
+        for k, (c, r) in enumerate(zip(cases, res)):
+            if c.get("_ok") and r.get("map_in_sup") and "etree" in r and c["ienv"][1] <= c["ienv"][2] and not r.get("dynamic_snode"):
+                lines.append(c05.model_line(c, r)); idx.append(k)
+        if lines:
+            rc, out, err = vf.sh2([adrv], inp="\n".join(lines) + "\n", timeout=600)
+            for k, ln in zip(idx, out.strip().split("\n")):
+                if not ln.startswith("M "):
+                    ctx.broken.append("alloc model driver: " + ln[:100]); continue
+                mm = [int(x) for x in ln[2:].split("|")[0].split()]
+                if mm != res[k]["map_in_sup"]:
+                    ctx.broken.append("correspondence PresetMap (symmetric mode): model %s vs implementation %s (%s, n=%d, relax %d)" % (
+                        mm[:14], res[k]["map_in_sup"][:14], prec, cases[k]["n"], cases[k]["ienv"][1]))
+                else:
+                    nmap += 1
         # pivot reuse with a stale perm_r in symmetric mode (row-dominant matrices: the diagonal is not the column maximum)
         follow = []
         for c, r in zip(cases, res):
@@ -216,6 +287,7 @@ def run(ctx):
         ctx.sample({k: cases[0][k] for k in ("prec", "kind", "n", "nprocs", "ienv")}, limit=8)
     ctx.cov["correspondence"]["symmetric_runs_ok"] = nok
     ctx.cov["correspondence"]["stale_pivot_reuse_falls_back_to_diagonal"] = nstale
+    ctx.cov["correspondence"]["presetmap_images_equal_to_model_in_symmetric_mode"] = nmap
     if nstale == 0:
         ctx.broken.append("generator: no symmetric-mode run with pivot reuse and a stale perm_r was evaluated")
     ctx.cov["correspondence"]["colcnt_h_equal_to_elimination_model_of_AT_plus_A"] = ntie
